@@ -1,5 +1,6 @@
 import Props.Obligations
 import Ctap.Canon
+import Ctap.KeyOrder
 /-
   C03 — everything the authenticator emits is CTAP2 canonical CBOR.
 -/
@@ -50,9 +51,38 @@ theorem extensions_canonical (c : Cfg) (flavour : String) (t : Ty) (v : Val)
     ∃ i : CItem, canon i = true ∧ encode t v = encC i :=
   ⟨toC t v, canon_toC t v (List.all_eq_true.mp (ob_sorted_adext c) _ ht) hv, e1 t v hv⟩
 
+/-- **The order is the order of the bytes on the wire** (G-ORDER, `Ctap/KeyOrder.lean`): the key
+    order `canon` speaks of coincides with CTAP2's rule on the *encoded* keys — lower major type
+    first, then the shorter encoding, then bytewise — for all integer / byte-string / text keys
+    in shortest form. -/
+theorem key_order_is_wire_order (k k' : CItem) (hk : isKey k = true) (hk' : isKey k' = true) :
+    keyLt k k' = ctapLt (encC k) (encC k') := keyLt_wire k k' hk hk'
+
+/-- hence every response body, at every nesting depth, has the encodings of its map keys strictly
+    increasing in CTAP2 canonical order -/
+theorem response_wire_canonical (c : Cfg) (variant : String) (t : Ty) (v : Val)
+    (ht : (Gen.respRoles c).lookup variant = some t) (hv : wts t v = true) :
+    ∃ i : CItem, wireCanon i = true ∧ encode t v = encC i := by
+  obtain ⟨i, hc, he⟩ := response_canonical c variant t v ht hv
+  have hmem : (variant, t) ∈ Gen.respRoles c := by
+    generalize Gen.respRoles c = l at ht
+    induction l with
+    | nil => simp [List.lookup] at ht
+    | cons p rest ih =>
+      obtain ⟨k, x⟩ := p
+      simp only [List.lookup] at ht
+      by_cases hk : variant = k
+      · subst hk; simp at ht; subst ht; simp
+      · have : (variant == k) = false := by simpa using hk
+        rw [this] at ht
+        simp only [List.mem_cons]; right; exact ih ht
+  have hs := List.all_eq_true.mp (ob_sorted_resp c) (variant, t) hmem
+  exact ⟨toC t v, canon_wireCanon _ (canon_toC t v hs hv) (deepKeys_toC t v), e1 t v hv⟩
+
 /-- any schema, stated once: declared pairwise in canonical order ⇒ canonical output -/
 theorem generic (t : Ty) (v : Val) (hs : sortedKeys t = true) (hv : wts t v = true) :
-    canon (toC t v) = true ∧ encode t v = encC (toC t v) := ⟨canon_toC t v hs hv, e1 t v hv⟩
+    canon (toC t v) = true ∧ wireCanon (toC t v) = true ∧ encode t v = encC (toC t v) :=
+  ⟨canon_toC t v hs hv, canon_wireCanon _ (canon_toC t v hs hv) (deepKeys_toC t v), e1 t v hv⟩
 
 /-! #### what the obligation rejects: the two orders found in the pinned tree (since repaired) -/
 example : sortedKeys (Spec.textMap [Spec.topt "setMinPINLength" Spec.bool, Spec.topt "pinUvAuthToken" Spec.bool]) = false := by
